@@ -13,3 +13,4 @@ print(msg)
 PY
 JOBS=16 coq/build.sh -k || echo "setup: some Coq files failed to build (reported per property by the checks)"
 (cd harness && RUSTFLAGS="--cfg layout21_verif" CARGO_TARGET_DIR=/verif/work/target cargo build --offline) || echo "setup: harness build failed (reported by the checks)"
+python3 tools/warm_pa.py || true
